@@ -6,6 +6,7 @@ import (
 	"container/list"
 	"context"
 	"sync"
+	"time"
 
 	"github.com/33cn/chain33/common/pubsub"
 	"github.com/33cn/chain33/p2p/utils"
@@ -164,16 +165,29 @@ func (s *Sim) TakePublished() []SimPublished {
 	return o
 }
 
-// Pending reports the number of pending light blocks and block requests.
+// Pending reports the number of pending light blocks and block requests, or
+// (-1, -1) when the lists' locks cannot be had within ten virtual seconds (a
+// holder that never releases them).
 func (s *Sim) Pending() (blocks, requests int) {
 	l := s.p.ltB
-	l.pdBlockLock.RLock()
-	blocks = l.pendBlockList.Len()
-	l.pdBlockLock.RUnlock()
-	l.blockReqLock.RLock()
-	requests = l.blockRequestList.Len()
-	l.blockReqLock.RUnlock()
-	return
+	type res struct{ b, r int }
+	ch := make(chan res, 1)
+	go func() {
+		var o res
+		l.pdBlockLock.RLock()
+		o.b = l.pendBlockList.Len()
+		l.pdBlockLock.RUnlock()
+		l.blockReqLock.RLock()
+		o.r = l.blockRequestList.Len()
+		l.blockReqLock.RUnlock()
+		ch <- o
+	}()
+	select {
+	case o := <-ch:
+		return o.b, o.r
+	case <-time.After(10 * time.Second):
+		return -1, -1
+	}
 }
 
 // Denied reports whether the validator currently shields the peer.
